@@ -41,6 +41,7 @@ RULE += (' Also: the caller modifies what cache_parameters() handed out; the cac
 RULE += (" Also: instances that are copies of an instance whose cached method was already looked up; subclasses overriding a cached method with another cached method that awaits super()'s.")
 RULE += (" Also: caches over callable objects stored in a class body bind like functools' caches do.")
 RULE += (' Also: keyword-only calls next to positional calls whose tuples look like keyword items (f(x=v) / f(("x", v))).')
+RULE += (' Also: f(*P, k=v) next to the positional f(*P, None, ("k", v)) (a passable value where a key separator could sit).')
 ASSUMPTIONS = ["functools.lru_cache (C implementation of the running 3.12 interpreter) is the reference",
                "cache_discard has no stdlib twin: reference is the cross-validated model"]
 EXHAUSTIVE_SUBSPACES = 'all histories of length <= 4 (thorough: 5) over 7 operations for maxsize 1 and 2'
@@ -146,6 +147,11 @@ def cases(tier, seed, shard, nshards):
                 pats.append([base[0] + [item], rest] if rng.random() < 0.5 else [[item] + base[0], rest])
                 if len(base[1]) > 1 and rng.random() < 0.5:
                     pats.append([base[0], list(reversed(base[1]))])  # ... and the same keywords in another order
+                if rng.random() < 0.5:
+                    # ... and ALL its keyword items as positional tuples behind a value a caller can pass (None, (), 0,
+                    # False, ""): whatever separates positional from keyword arguments in a key is no such value
+                    sep = rng.choice([None, None, ["T"], 0, False, "", "a"])
+                    pats.append([base[0] + [sep] + [["T", n, v] for n, v in base[1]], []])
         ops = []
         for _ in range(rng.randint(1, 40)):
             r = rng.random()
